@@ -27,6 +27,28 @@ CLAIMED = {
                 text="The autonomous variant is the same spec with the latch and the request-withdrawing done(); TLC checks never-cycles / silent-when-off / latch-follows-is_executing exhaustively on three autonomous shapes, and validates on_enable/on_iteration/on_disable histories of the real AutonomousStateMachine (all clauses owned by C13) plus replayed spec behaviours.",
                 tech="TLA+ spec MagicSM (auto variant) + TLC exhaustive invariants; TLC batch trace validation; simulated behaviours replayed"),
 }
+RB_NOTE = ("Trusted: TLC; the HAL simulator (driver station, notifier alarms, FPGA clock) and in-process NetworkTables; the "
+           "recorder harness/drivers/robot_driver.py (user callbacks of generated robots, a wrapper around "
+           "hal.waitForNotifierAlarm to stop the robot thread at each wait). Driver-station changes are delivered only "
+           "while the robot thread is blocked; autonomous and test flags are never set together. Exhaustive runs are "
+           "bounded in iterations, mode changes and faults (evidence.tlc_runs).")
+CLAIMED.update({
+    "C05": dict(cat="model_checking", ref="DESIGN.md 4.4, 5/C05", note=RB_NOTE,
+                text="specs/MagicRobot.tla models the robot thread as program counter + remaining callback sites; TLC checks (bounded, exhaustive over mode sequences, faults, writes) no-execute-in-disabled/test, /robot/mode, iteration order structure and the one-iteration-per-period grid; the real startCompetition() loop of generated robots (1-3 components, inherited robot classes, 0-2 autonomous modes, use_teleop_in_autonomous on/off, random mode scripts, overruns) is validated event by event against the spec by TLC: callback order, FPGA time of every callback, /robot/mode as read inside every callback; TLC-simulated behaviours are replayed on the real loop.",
+                tech="TLA+ spec MagicRobot + TLC exhaustive invariants; TLC batch trace validation of the real control loop; simulated behaviours replayed"),
+    "C06": dict(cat="model_checking", ref="DESIGN.md 4.4, 5/C06", note=RB_NOTE,
+                text="TLC checks setup-once-and-first, execute-only-inside-the-enable-bracket, disabled-means-disabled and enable-before-init exhaustively (bounded) on the spec, with a 'no_enable_on_teleop' mutation caught; recorded histories of the real loop (all mode sequences incl. direct switches and endCompetition) are accepted only if every setup/on_enable/on_disable/execute call comes exactly where the spec's todo sequence has it, and every callback sees all components created and injected.",
+                tech="TLA+ spec MagicRobot + TLC exhaustive invariants; TLC batch trace validation; simulated behaviours replayed"),
+    "C07": dict(cat="fault_enumeration", ref="DESIGN.md 4.4, 5/C07", note=RB_NOTE + " Faults are injected at the callback sites C07 lists (not setup()/createObjects()).",
+                text="Fault enumeration through the model: TLC explores every placement of up to 2-3 raising callbacks over all sites/modes/iterations with FMS on/off (invariants: FMS => never crashed; unswallowed => crashed; swallowed only under FMS), the pre-fix deviations are caught; every TLC fault scenario from simulation (incl. all distinct crash scenarios) is replayed on the real loop and random multi-fault histories are validated: thread liveness, exception escaping, and that the remaining callbacks still run in order.",
+                tech="TLA+ spec MagicRobot + TLC exhaustive fault placement; TLC fault scenarios replayed on the real loop; TLC batch trace validation"),
+    "C10": dict(cat="model_checking", ref="DESIGN.md 4.4, 5/C10", note=RB_NOTE,
+                text="The spec carries every component attribute; TLC checks defaults-at-iteration-start and plain-attributes-untouched exhaustively (bounded) with scripted writes from any callback, a 'reset_skipped' mutation is caught; in validated histories every callback logs a snapshot of all marked and unmarked attributes of all components, compared by TLC with the spec state (incl. inherited markers, several markers, faults under FMS).",
+                tech="TLA+ spec MagicRobot + TLC exhaustive invariants; TLC batch trace validation with attribute snapshots; simulated behaviours replayed"),
+    "C11": dict(cat="model_checking", ref="DESIGN.md 4.4/4.6, 5/C11", note=RB_NOTE + " This check covers freshness/exactly-once/per-mode/raising getters with int-typed getters and both key derivations; topic typing for other return hints is not covered by it.",
+                text="The spec publishes the scripted return value of each getter exactly once per iteration in every mode (any order inside the feedback phase) and leaves the entry alone when the getter raises; TLC checks all-published-every-mode (mutation 'feedback_skipped_in_disabled' caught) and validates, at every wait of recorded histories, the values read back through NetworkTables for robot- and component-level getters (get_ prefix and explicit key=).",
+                tech="TLA+ spec MagicRobot + TLC exhaustive invariants; TLC batch trace validation with NetworkTables read-back; simulated behaviours replayed"),
+})
 
 m = {
     "version": 1,
